@@ -757,17 +757,26 @@ pub fn build_case(pat: &str, rng: &mut Rng, o: &BuildOpts) -> Option<Built> {
             sp_region = Some(reg);
             let pushes = matches!(insn.mn, Mn::Bsr | Mn::Jsr | Mn::Trapa);
             // frame address (4 bytes, even)
-            let fa = match reg {
-                EaRegion::Hole => ea_in(rng, EaRegion::Hole, 4),
-                r => {
-                    let a = ea_in(rng, r, 4);
-                    if r == EaRegion::Vec {
-                        a.max(0x104)
-                    } else {
-                        a
+            let mut fa;
+            let mut tries = 0;
+            loop {
+                fa = match reg {
+                    EaRegion::Hole => ea_in(rng, EaRegion::Hole, 4),
+                    r => {
+                        let a = ea_in(rng, r, 4);
+                        if r == EaRegion::Vec {
+                            a.max(0x104)
+                        } else {
+                            a
+                        }
                     }
+                };
+                tries += 1;
+                // keep the frame away from the instruction's own bytes
+                if tries > 8 || fa + 4 <= pc || fa >= pc + 16 {
+                    break;
                 }
-            };
+            }
             let st = top(rng);
             let sp = if pushes { fa.wrapping_add(4) } else { fa };
             c.er[7] = (sp & 0xffffff) | ((st as u32) << 24);
